@@ -222,7 +222,8 @@ impl Scheduler {
         let tracker_data_req = tracker.get_data_requests();
         let mut uniq = HashSet::with_capacity(tracker_data_req.len());
 
-        let all_uniq = tracker_data_req.iter().all(|x| uniq.insert(x.filter_idx));
+        // `t` and `$share/group/t` share a filter index but are different subscriptions
+        let all_uniq = tracker_data_req.iter().all(|x| uniq.insert(&x.filter));
 
         if !all_uniq {
             Some(&tracker.data_requests)
